@@ -29,7 +29,8 @@ def register(prop, run, KERNELS, C01_COVERS):
     prop("C09",
          quick=[run("C09_readonly", covers=["done"], nmax=1, cache=1),
                 run("C09_readonly", covers=["done"], nmin=2, nmax=2, cache=2, budget=900),
-                run("C09_append", covers=["done", "flushed"], nmax=1, cache=1, ops=2)],
+                run("C09_append", covers=["done", "flushed"], nmax=1, cache=1, ops=2),
+                run("C09_append", covers=["done", "flushed", "flush-retried"], nmin=1, nmax=2, cache=0, vlenmin=1, ops=1, flushfault=1, maxfail=8)],
          thorough=[run("C09_readonly", covers=["done"], nmax=2, cache=1, budget=1800),
                    run("C09_readonly", covers=["done"], nmin=3, nmax=3, cache=2, vlenmin=1, tailjunk=0, budget=1800),
                    run("C09_append", covers=["done", "flushed"], nmin=2, nmax=2, cache=2, ops=2, vlenmin=1, budget=1800)],
@@ -55,7 +56,8 @@ def register(prop, run, KERNELS, C01_COVERS):
 
     prop("C14",
          quick=KERNELS + [run("C14_fmt", covers=["done"], nmax=2, cache=1),
-                          run("C14_fmt", covers=["done", "copied"], nmax=2, cache=2, copyto=1)],
+                          run("C14_fmt", covers=["done", "copied"], nmax=2, cache=2, copyto=1),
+                          run("C14_fmt", covers=["done", "flush-retried"], nmin=1, nmax=2, cache=0, vlenmin=1, flushfault=1, maxfail=8)],
          thorough=KERNELS + [run("C14_fmt", covers=["done"], nmax=2, cache=1, klen=2, vlen=1, budget=1800),
                              run("C14_fmt", covers=["done"], nmin=3, nmax=3, cache=2, budget=1800),
                              run("C14_fmt", covers=["done", "copied"], nmax=2, cache=2, copyto=1, klen=2, budget=1800)],
